@@ -173,7 +173,9 @@ func (w *World) hook(p vsql.Point) error {
 		}
 	}
 	if tick && (p.Kind == vsql.Stmt || p.Kind == vsql.Begin || p.Kind == vsql.Commit) {
-		time.Sleep(time.Microsecond)
+		// (not a whole number of microseconds: timestamps must carry nanoseconds
+		// like real ones do, or code that rounds them would go unnoticed)
+		time.Sleep(1001 * time.Nanosecond)
 	}
 	// (after the tick, never before: once the request is cancelled database/sql's
 	// watcher blocks on a lock this statement holds, and virtual time cannot move
